@@ -89,7 +89,9 @@ func zzH_C19_session() {
 		}
 	}
 	for step := 0; step < verifBound("STEPS"); step++ {
-		switch verifNondetRange(0, 6) {
+		switch verifNondetRange(0, 7) {
+		case 7:
+			verifHelperCloseOutput() // the helper closes its stdout (it is done talking) but lingers
 		case 0:
 			feed([]byte("data"))
 		case 1:
